@@ -28,7 +28,7 @@ SPEC = {
     "pins": ["RowHistory", "HistoryWiring", "RandomRange"],
     "harness": "harness.c10",
     "technique": "Lean 4 theorems over the history machine (arbitrary op sequences; draws as oracle arguments) and over the unique-context machine built on the C12 UpdatableRandomRange theorems + pins regenerated from the AST of row_history.py / data_generator_runtime.py + op-for-op trace correspondence of real runs with recorded draws + direct oracle on emitted rows",
-    "level_text": "Machine-checked proof, for every op sequence of the RowHistory machine (saves under any nickname layout, picks with any draw in range, iteration resets, continuation re-saves): nickname-scope picks return a saved row carrying that nickname and table with the drawn ordinal, from the current window when one exists; table-scope picks do so whenever ids are saved densely (DenseTrace), table counters are monotone (fix 9826fcb), so without density a table pick is a row of the running iteration or an id reserved ahead but never an earlier row, re-saved just_once rows are never current, and the ranges one unique context sees never trip an UpdatableRandomRange assertion; the unrestricted existence statement is still refuted by the D07 witness that the oracle reproduces on the real code; unique picks never repeat, stay in range, never fail while growing, use every target and then report exhaustion; the per-parent state rule re-creates the context exactly when the parent row changes.",
+    "level_text": "Machine-checked proof, for every op sequence of the RowHistory machine (saves under any nickname layout, picks with any draw in range, iteration resets, continuation re-saves): nickname-scope picks return a saved row carrying that nickname and table with the drawn ordinal, from the current window when one exists; table-scope picks do so whenever ids are saved densely (DenseTrace), table counters are monotone (fix 9826fcb), so without density a table pick is a row of the running iteration or an id reserved ahead but never an earlier row, re-saved just_once rows are never current, every persistent row of a history-backed table is re-saved exactly once after a continuation (fix 5da9efa) and that re-save cannot fail, and the ranges one unique context sees never trip an UpdatableRandomRange assertion; the unrestricted existence statement is still refuted by the D07 witness that the oracle reproduces on the real code; unique picks never repeat, stay in range, never fail while growing, use every target and then report exhaustion; the per-parent state rule re-creates the context exactly when the parent row changes.",
     "level_note": "Trusted: Lean kernel; py2lean; the harness wrappers and recorded draws; sqlite UNIQUE/SELECT semantics as modelled (first matching row); CPython int/dict. The model is tied to the code by pinned expressions/skeletons and by replaying every traced call of every generated run.",
     "assumptions": [
         "random.randint(a, b) returns an int in [a, b] (the scope theorems take lo <= draw <= hi as hypothesis; the harness forces both ends)",
@@ -267,6 +267,11 @@ class Tracer:
             # the model's `Op.resave`: the re-saves followed by `reset_locals()` (fix 9826fcb)
             tr.in_resave = []
             h = interp.row_history
+            # inputs of the selection rule (`History.resaveRows`): the two persistent registries
+            h._verif_run["resave_in"] = {
+                "pn": [[k, o._tablename, o.id] for k, o in globls.persistent_nicknames.items()],
+                "pt": [[k, o.id] for k, o in globls.persistent_objects_by_table.items()],
+                "hist": sorted(tables)}
             try:
                 rv = o_resave(interp, globls, tables)
             except Exception as e:  # noqa
@@ -275,6 +280,7 @@ class Tracer:
             finally:
                 rows, tr.in_resave = tr.in_resave, None
             h._verif_run["ops"].append({"op": ["resave", rows], "obs": ["ok"], "st": digest(h)})
+            h._verif_run["resave_rows"] = rows
             return rv
 
         def loop_once(interp, statement_list, continuing):
@@ -528,6 +534,9 @@ def model_requests(ch):
         reqs.append({"m": "c10.history", "counters": run["counters"], "tables": run["tables"],
                      "nickmap": run["nickmap"], "univ": tr.univ, "ops": ops})
         meta.append(("history", ri))
+        if "resave_rows" in run:
+            reqs.append(dict(run["resave_in"], m="c10.resave_rows"))
+            meta.append(("resave_rows", ri))
         reqs.append({"m": "c10.hist_tables", "names": run["nickmap"],
                      "refs": sorted({s["to"] for s in ch.meta["pickers"].values()})})
         meta.append(("hist_tables", ri))
@@ -591,6 +600,13 @@ def compare(rep, case, ch, reqs, meta, results):
                     rep.disagreement("c10.history:state", cs, diff, {"index": i, "op": real["op"]})
                     break
                 nops += 1
+        elif kind == "resave_rows":
+            run = tr.runs[key]
+            if val != run["resave_rows"]:
+                rep.disagreement("c10.resave_rows", cs, val, {"in": run["resave_in"], "resaved": run["resave_rows"]})
+            rep.count("resave:rows", len(val))
+            if len(val) >= 2:
+                rep.count("resave:runs-with>=2-rows")
         elif kind == "hist_tables":
             run = tr.runs[key]
             if sorted(val) != run["tables"]:
@@ -699,7 +715,7 @@ class Gen:
     def recipe(self):
         rng = self.rng
         layout = rng.choice(["table", "nick", "multi", "forward", "nested", "just_once", "unique_counts",
-                             "unique_growth", "parent", "mixed", "mixed", "mixed"])
+                             "unique_growth", "parent", "resave", "mixed", "mixed", "mixed"])
         self.features.add("layout:" + layout)
         rec = []
         if layout == "table":
@@ -767,6 +783,17 @@ class Gen:
             rec.append(self.picker())
             if rng.random() < 0.4:
                 rec.insert(rng.randint(0, 1), self.picker(to=rng.choice(["T", "n"])))
+        elif layout == "resave":
+            # several just_once rows over two tables, by nickname and by table name, equal ids across
+            # tables (what `resave_objects_from_continuation` must de-duplicate by (table, id))
+            for tb, nk in rng.sample([("T", "n"), ("U", None), ("T", None), ("U", "m"), ("U", "n")], rng.randint(2, 4)):
+                if nk and any(x.get("nickname") == nk and x["object"] != tb for x in rec):
+                    continue
+                rec.append(self.target(tb, nk, just_once=True, count=rng.choice([1, 1, 2])))
+            if rng.random() < 0.5:
+                rec.append(self.target(rng.choice(["T", "U"]), None))
+            for _ in range(rng.randint(1, 3)):
+                rec.append(self.picker(count=rng.choice([1, 2])))
         elif layout == "unique_counts":
             a = rng.randint(0, 6)
             b = rng.choice([a, a, a + 1, a + 1, max(a - 1, 0), rng.randint(0, 6)])
@@ -811,6 +838,8 @@ def gen_case(rng):
     rec = g.recipe()
     k = rng.randint(1, 4)
     parts = common_compositions(k, rng) if rng.random() < 0.45 else [k]
+    if "layout:resave" in g.features and len(parts) < 2:
+        parts = [1] + common_compositions(rng.randint(1, 3), rng)
     if len(parts) > 1:
         g.features.add("continuation")
     return {"recipe": yaml.safe_dump(rec, sort_keys=False), "parts": parts, "dseed": rng.randint(0, 10**9),
@@ -827,6 +856,9 @@ def common_compositions(k, rng):
 
 
 FIXED = [
+    # C05's D48 scenario (fixed by 5da9efa): J(1) known by nickname, U(1) by table name: both must be re-saved
+    {"recipe": "- object: T\n  nickname: n\n  just_once: true\n  fields:\n    tpl: 1\n- object: U\n  just_once: true\n  fields:\n    tpl: 2\n- object: P\n  fields:\n    r1:\n      random_reference: U\n    r2:\n      random_reference: n\n",
+     "parts": [1, 2], "dseed": 3},
     # D06 layout (fixed upstream in the snapshot): unique with growth inside an iteration
     {"recipe": "- object: A\n  count: 5\n  fields:\n    tpl: 1\n  friends:\n  - object: B\n    fields:\n      a:\n        random_reference:\n          to: A\n          unique: true\n",
      "parts": [2], "dseed": 1},
